@@ -1,4 +1,5 @@
 import GoaVerif.Lemmas.Eval
+import GoaVerif.Lemmas.Roots
 /-!
 # C11 — DSL evaluation phases and root ordering: property theorems
 Model `GoaVerif.Model.Eval` (hand-written; tie T3 `rteval` ↔ `drv_eval`).
@@ -189,6 +190,40 @@ def dep3 : Name → List Name := fun n => if n = "c" then ["b"] else if n = "b" 
 example : rootsOrder ⟨["c", "b", "a"], dep3⟩ 13 = some ["a", "b", "c"] := by decide
 /-- two roots that depend on each other are a cycle -/
 example : rootsOrder ⟨["x", "y"], fun n => if n = "x" then ["y"] else ["x"]⟩ 10 = none := by decide
+
+/-! ### Dependency order of `Roots` -/
+
+/-- **Topological order (every acyclic registry, every size).** Let `U` be any finite set of names
+    closed under `DependsOn` that contains the registered roots, and let the recursion budget of the
+    model exceed `2·|U|+1` (the real code has no budget: the bound is the nesting depth
+    `sortDependenciesR` can reach, proved in `Lemmas/Roots.lean`). Whenever `Roots` returns an order `l`
+    (no dependency cycle reported), every registered root `r` comes after every root it depends on,
+    directly or through other roots: `l = p ++ r :: q` with the dependency in `p`. Together with
+    `roots_nodup` this is the position of `r`, so "before" is unambiguous. -/
+theorem roots_topo (g : Reg) (fuel : Nat) (U : List Name)
+    (hU : ∀ x ∈ U, ∀ y ∈ g.dep x, y ∈ U) (hr : ∀ r ∈ g.roots, r ∈ U) (hfuel : 2 * U.length + 2 ≤ fuel)
+    (l : List Name) (h : rootsOrder g fuel = some l) :
+    ∀ r ∈ g.roots, ∀ d, Reach g.dep r d → d ≠ r → ∃ p q, l = p ++ r :: q ∧ d ∈ p := by
+  intro r hrr d hd hne
+  have hgood := rootsOrder_good g fuel U hU hr hfuel l h
+  have hmem : r ∈ l := roots_complete g fuel l h r hrr
+  obtain ⟨p, q, e⟩ := List.append_of_mem hmem
+  refine ⟨p, q, e, ?_⟩
+  have hdd : d ∈ flatDeps g fuel r := reach_mem_flatDeps g fuel U hU hr hfuel hrr hd
+  unfold Good at hgood
+  rw [e] at hgood
+  simpa using goodAux_split (flatDeps g fuel) [] p q r hgood d hdd hne
+
+/-- direct dependencies, the form the property is stated in -/
+theorem roots_topo_direct (g : Reg) (fuel : Nat) (U : List Name)
+    (hU : ∀ x ∈ U, ∀ y ∈ g.dep x, y ∈ U) (hr : ∀ r ∈ g.roots, r ∈ U) (hfuel : 2 * U.length + 2 ≤ fuel)
+    (l : List Name) (h : rootsOrder g fuel = some l) :
+    ∀ r ∈ g.roots, ∀ d ∈ g.dep r, d ≠ r → ∃ p q, l = p ++ r :: q ∧ d ∈ p :=
+  fun r hrr d hd hne => roots_topo g fuel U hU hr hfuel l h r hrr d (.head hd (.refl d)) hne
+
+/-- non-vacuity: a registry that meets the hypotheses (universe, fuel) and is ordered -/
+example : (∀ x ∈ ["a", "b", "c"], ∀ y ∈ dep3 x, y ∈ ["a", "b", "c"]) ∧ 2 * ["a", "b", "c"].length + 2 ≤ 13 ∧
+    rootsOrder ⟨["c", "b", "a"], dep3⟩ 13 = some ["a", "b", "c"] := by decide
 
 /-- **Known finding (witness).** A root that lists itself in `DependsOn` is not reported. -/
 theorem selfloop_not_reported :
